@@ -7,6 +7,13 @@ ALL = ["C%02d" % i for i in range(1, 21)]
 
 # id -> (level category, technique, level text, level note, design ref)
 CHECKS = {
+    "C15": (
+        "model_checking",
+        "exhaustive enumeration of hash-map iteration orders (process-level hash seed owned through a getrandom shim, seeds enumerated until every permutation of every observable map occurred) x specifications; digests of all public queries and of generated code compared across processes; thread schedules of first use explored with shuttle in the ctrt crate",
+        "The harness re-executes itself under 48 (thorough 256) different, owned hash seeds. In each process every specification (a declaration-rich grammar in three yacc kinds incl. Eco with 3-4 implicit tokens, 3 %avoid_insert / precedence / %epp tokens, states with 3 outgoing edges and several conflicts; every grammar of a universe; the seed grammars) is turned into grammar, state graph and table on a fresh thread, and three grammar/lexer pairs are run through the real compile-time builders. The digest of the complete query dump (conflicts as a set) and of the generated files must be identical in all processes. For every randomly seeded map reachable through the public API (ast.implicit_tokens, avoid_insert, precs, epp, graph edges of 3-edge states) the iteration orders seen are recorded and the run is only reported exhaustive when every permutation of every such map occurred. The schedule part (several threads calling a generated parser for the first time) is explored by shuttle in /verif/harness/ctrt and reported under C13's evidence.",
+        "Orders of maps that are never exposed cannot be observed (same seeds run). std::sync::OnceLock is trusted.",
+        "DESIGN.md 3/C15",
+    ),
     "C18": (
         "model_checking",
         "breadth-first search over histories of {edit grammar, edit lexer, change one builder option, build} executed on the real builders (one child process per build), with canonical-state de-duplication and a clean-build differential oracle",
